@@ -45,6 +45,44 @@ Theorem C09_short_circuit :
 Proof. exact short_circuit_xor_zero_sat. Qed.
 Print Assumptions C09_short_circuit.
 
+(* Gate.ShortCircuit moves every consumer slot of the bypassed wire, for every
+   graph satisfying the bookkeeping/structural invariant SI (= every state of
+   the ConstPropagate sweep on a freshly built graph): afterwards no gate of
+   cc.Gates reads the bypassed wire on either input.  A consumer op(w, w) is
+   listed twice in w's output gates and Gate.ReplaceInput is called once per
+   entry (A first, then B); C09_const_propagate above covers such consumers
+   (its valuation argument is per ReplaceInput call), the example shows both
+   inputs moved, and the "visit each gate once" variant is refuted with Prune. *)
+Theorem C09_short_circuit_moves_every_slot :
+  forall rank G g o,
+    SI rank G -> In g (gorder G) -> In o (inputs_of (gn G g)) ->
+    wout (gw G (nO (gn G g))) = false ->
+    forall c, In c (gorder G) -> lslots (short_circuit G g o) c (nO (gn G g)) = 0.
+Proof. exact short_circuit_moves_every_slot. Qed.
+Print Assumptions C09_short_circuit_moves_every_slot.
+
+Theorem C09_both_inputs_example :
+  (wouts (gw ex2_graph 5) = [4; 4] /\ nA (gn ex2_graph 4) = 5 /\ nB (gn ex2_graph 4) = 5) /\
+  (let G1 := const_propagate ex2_graph in
+   nA (gn G1 4) = 0 /\ nB (gn G1 4) = 0 /\ wouts (gw G1 5) = [] /\ wnum (gw G1 5) = 0 /\ gerr G1 = 0).
+Proof.
+  exact (conj (conj (proj1 (proj2 (proj2 (proj2 ex2_shape))))
+                    (conj (proj1 (proj2 ex2_shape)) (proj1 (proj2 (proj2 ex2_shape)))))
+              ex2_both_inputs_moved).
+Qed.
+Print Assumptions C09_both_inputs_example.
+
+(* the variant in which ForEachOutput skips a consecutive duplicate entry and
+   DisconnectOutputs only zeroes the counter: with Prune some input of the
+   example gets a wrong output (or a pass panics) *)
+Theorem C09_visit_once_refuted :
+  exists x, In x all_inputs2 /\
+    (negb (Nat.eqb (gerr (fst (pipeline_once true Yao ex2_graph))) 0) ||
+     negb (lb_eqb (eval_plain (snd (pipeline_once true Yao ex2_graph)) x)
+                  (graph_eval ex2_graph x))) = true.
+Proof. exact ex2_visit_once_refuted. Qed.
+Print Assumptions C09_visit_once_refuted.
+
 (* Prune, for every graph, input and valuation: the same valuation satisfies
    the pruned graph. *)
 Theorem C09_prune :
